@@ -32,6 +32,8 @@ func init() {
 		"context.Context.Err":        modelCtxErr,
 		"context.Cause":              modelCtxCause,
 		"fmt.Sprintf":                modelSprintf,
+		"log.Fatalf": modelExit, "log.Fatal": modelExit, "log.Fatalln": modelExit, "os.Exit": modelExit,
+		"log.Panicf": modelExit, "log.Panic": modelExit,
 	}
 }
 
@@ -132,6 +134,13 @@ func modelCTCompare(ex *Exec, st *State, fn *types.Func, args []*Val, e *ast.Cal
 	sx := ex.strOf(sel(m, ex.sRef(x)), ex.sOff(x), ex.sLen(x))
 	sy := ex.strOf(sel(m, ex.sRef(y)), ex.sOff(y), ex.sLen(y))
 	return []*Val{{T: tInt, Term: ite(eq(sx, sy), intLit(1), intLit(0))}}, true
+}
+
+// process exit: the path ends here (deferred calls do not run).
+func modelExit(ex *Exec, st *State, fn *types.Func, args []*Val, e *ast.CallExpr) ([]*Val, bool) {
+	trusted(ex, "library contract: "+calleeKey(fn)+" does not return (process exit; deferred functions are not run)")
+	ex.exitAfterHooks = true
+	return nil, true
 }
 
 // ---- fmt.Sprintf: for a constant format made only of literal text and plain
@@ -296,11 +305,11 @@ func (ex *Exec) lockOf(st *State, e *ast.CallExpr) (key string, recv *Val, ts *T
 	if !ok {
 		return
 	}
-	rt := ex.typeOf(muSel.X)
-	if rt == nil {
+	rv := ex.expr(st, muSel.X)
+	if rv == nil || rv.T == nil {
 		return
 	}
-	base, isPtr := derefType(rt)
+	base, isPtr := derefType(rv.T)
 	if !isPtr {
 		return
 	}
@@ -314,7 +323,7 @@ func (ex *Exec) lockOf(st *State, e *ast.CallExpr) (key string, recv *Val, ts *T
 	}
 	n := base.(*types.Named)
 	key = n.Obj().Name() + "." + muSel.Sel.Name
-	recv = ex.expr(st, muSel.X)
+	recv = rv
 	return
 }
 
@@ -471,12 +480,23 @@ func (ex *Exec) mergeStates(prefix int, outs []flowOut, nres int) (*State, []*Va
 		return outs[0].st, outs[0].rets
 	}
 	guards := make([]*Term, len(outs))
-	for i, o := range outs {
-		guards[i] = and(o.st.pc[min(prefix, len(o.st.pc)):]...)
-	}
 	m := outs[0].st.clone()
 	m.pc = append([]*Term(nil), outs[0].st.pc[:prefix]...)
+	for i, o := range outs {
+		// name each path guard so that later terms stay small
+		g := ex.fresh("pathg", SBool)
+		m.pc = append(m.pc, eq(g, and(o.st.pc[min(prefix, len(o.st.pc)):]...)))
+		guards[i] = g
+	}
 	m.pc = append(m.pc, or(guards...))
+	name := func(t *Term) *Term {
+		if t == nil || t.Op != "ite" {
+			return t
+		}
+		c := ex.fresh("mrg", t.S)
+		m.pc = append(m.pc, eq(c, t))
+		return c
+	}
 	pick := func(get func(*State) *Term) *Term {
 		var res *Term
 		same := true
@@ -527,7 +547,7 @@ func (ex *Exec) mergeStates(prefix int, outs []flowOut, nres int) (*State, []*Va
 			}
 			continue
 		}
-		t := pick(func(s *State) *Term { return s.vars[k].Term })
+		t := name(pick(func(s *State) *Term { return s.vars[k].Term }))
 		m.vars[k] = &Val{T: proto.T, Term: t}
 	}
 	// heaps
@@ -547,18 +567,14 @@ func (ex *Exec) mergeStates(prefix int, outs []flowOut, nres int) (*State, []*Va
 			if h, ok := s.heaps[k]; ok {
 				return h
 			}
-			for _, o := range outs {
-				if h, ok := o.st.heaps[k]; ok {
-					// heap first touched on another path: its initial symbol
-					if strings.HasSuffix(h.Op, "@0") {
-						return h
-					}
-				}
+			// heap first touched on another path: here it still has its initial value
+			if srt, ok := ex.heapSorts[k]; ok {
+				return ex.D.konst(k+"@0", srt)
 			}
 			return nil
 		})
 		if t != nil {
-			m.heaps[k] = t
+			m.heaps[k] = name(t)
 		}
 	}
 	// ghosts
@@ -571,7 +587,7 @@ func (ex *Exec) mergeStates(prefix int, outs []flowOut, nres int) (*State, []*Va
 			return nil
 		})
 		if t != nil {
-			m.ghost[k] = &Val{T: g.T, Term: t}
+			m.ghost[k] = &Val{T: g.T, Term: name(t)}
 		}
 	}
 	// results
@@ -603,7 +619,7 @@ func (ex *Exec) mergeStates(prefix int, outs []flowOut, nres int) (*State, []*Va
 		if res == nil {
 			rets = append(rets, proto)
 		} else {
-			rets = append(rets, &Val{T: proto.T, Term: res})
+			rets = append(rets, &Val{T: proto.T, Term: name(res)})
 		}
 	}
 	return m, rets
